@@ -69,14 +69,17 @@ type RedisCfg struct {
 	Layout       []SlotRange  `json:"layout,omitempty"`   // default: even split
 	ReadStrategy int          `json:"read_strategy,omitempty"`
 	Compression  *Compression `json:"compression,omitempty"`
-	ConnLimit    uint32       `json:"conn_limit,omitempty"`
-	Preload      []KV         `json:"preload,omitempty"`
-	ListenBusy   int          `json:"listen_busy,omitempty"`
-	ConnectMs    int          `json:"connect_timeout_ms,omitempty"`
-	SeedMasters  bool         `json:"seed_masters_only,omitempty"` // host list = masters only
-	FragNum      int          `json:"frag_num,omitempty"`
-	FragDen      int          `json:"frag_den,omitempty"`
-	BufCap       int          `json:"buf_cap,omitempty"`
+	// CompressionLate: the service starts without any compression section in its options; the section of
+	// Compression only arrives with a later configuration update
+	CompressionLate bool   `json:"compression_late,omitempty"`
+	ConnLimit       uint32 `json:"conn_limit,omitempty"`
+	Preload         []KV   `json:"preload,omitempty"`
+	ListenBusy      int    `json:"listen_busy,omitempty"`
+	ConnectMs       int    `json:"connect_timeout_ms,omitempty"`
+	SeedMasters     bool   `json:"seed_masters_only,omitempty"` // host list = masters only
+	FragNum         int    `json:"frag_num,omitempty"`
+	FragDen         int    `json:"frag_den,omitempty"`
+	BufCap          int    `json:"buf_cap,omitempty"`
 }
 
 const ProxyAddr = "127.0.0.1:6379"
@@ -159,9 +162,9 @@ func (e *RedisEnv) svcConfig() *service.Config {
 		Listener:       &service.Listener{Address: &common.Address{Ip: "127.0.0.1", Port: 6379}, ConnectionLimit: e.Cfg.ConnLimit},
 		ConnectTimeout: &ct, IdleTimeout: &it, Protocol: protocol.Redis,
 	}
-	if e.Cfg.ReadStrategy != 0 || e.Cfg.Compression != nil {
+	if e.Cfg.ReadStrategy != 0 || (e.Cfg.Compression != nil && !e.Cfg.CompressionLate) {
 		opt := &protocol.RedisOption{ReadStrategy: pbredis.ReadStrategy(e.Cfg.ReadStrategy)}
-		if e.Cfg.Compression != nil {
+		if e.Cfg.Compression != nil && !e.Cfg.CompressionLate {
 			opt.Compression = &pbredis.Compression{Enable: e.Cfg.Compression.Enable, Threshold: e.Cfg.Compression.Threshold, Algorithm: pbredis.Compression_SNAPPY}
 		}
 		cfg.ProtocolOptions = &service.Config_RedisOption{RedisOption: opt}
